@@ -23,25 +23,30 @@ Print Assumptions C04_executes_own_trace.
 
 (* ---- per run: the current worker bodies follow the lock discipline on every path and every fault position,
         write no state shared between blocks, and swallow nothing *)
-Theorem C04_fuse_wf : wf_worker fuse_worker = true.            Proof. vm_compute. reflexivity. Qed.
-Theorem C04_compare_wf : wf_worker compare_worker = true.      Proof. vm_compute. reflexivity. Qed.
-Theorem C04_stats_window_wf : wf_worker stats_window_worker = true. Proof. vm_compute. reflexivity. Qed.
-Theorem C04_stats_sums_wf : wf_worker stats_sums_worker = true.    Proof. vm_compute. reflexivity. Qed.
+Theorem C04_fuse_wf : wf_worker (guard_view fuse_worker) = true.            Proof. vm_compute. reflexivity. Qed.
+Theorem C04_compare_wf : wf_worker (guard_view compare_worker) = true.      Proof. vm_compute. reflexivity. Qed.
+Theorem C04_stats_window_wf : wf_worker (guard_view stats_window_worker) = true. Proof. vm_compute. reflexivity. Qed.
+Theorem C04_stats_sums_wf : wf_worker (guard_view stats_sums_worker) = true.    Proof. vm_compute. reflexivity. Qed.
+(* the discipline is checked on the worker viewed through the generated dataset -> lock map (one lock per dataset in the current source);
+   the view's traces are exactly the worker's traces with every dataset replaced by the lock that guards it, so mutual exclusion per
+   lock class below is mutual exclusion per dataset *)
+Theorem C04_guard_view_traces p : traces (guard_view p) = map (map (relabel_action lock_class)) (traces p).
+Proof. exact (traces_relabel lock_class p). Qed.
 Theorem C04_locks_created_once : locks_ok = true.              Proof. vm_compute. reflexivity. Qed.
 Print Assumptions C04_fuse_wf.
 
 (* ---- hence: fuse with ANY number of blocks, ANY schedule: mutual exclusion on all four datasets *)
-Theorem C04_fuse_mutex progs sched : tasks_of fuse_worker progs ->
+Theorem C04_fuse_mutex progs sched : tasks_of (guard_view fuse_worker) progs ->
   let '(ths, own) := run (init progs) sched in
   forall t1 t2 th1 th2 x, nth_error ths t1 = Some th1 -> nth_error ths t2 = Some th2 ->
     inside th1 = Some x -> inside th2 = Some x -> t1 = t2.
-Proof. exact (worker_mutex fuse_worker progs sched C04_fuse_wf). Qed.
+Proof. exact (worker_mutex (guard_view fuse_worker) progs sched C04_fuse_wf). Qed.
 Print Assumptions C04_fuse_mutex.
-Theorem C04_compare_mutex progs sched : tasks_of compare_worker progs ->
+Theorem C04_compare_mutex progs sched : tasks_of (guard_view compare_worker) progs ->
   let '(ths, own) := run (init progs) sched in
   forall t1 t2 th1 th2 x, nth_error ths t1 = Some th1 -> nth_error ths t2 = Some th2 ->
     inside th1 = Some x -> inside th2 = Some x -> t1 = t2.
-Proof. exact (worker_mutex compare_worker progs sched C04_compare_wf). Qed.
+Proof. exact (worker_mutex (guard_view compare_worker) progs sched C04_compare_wf). Qed.
 Print Assumptions C04_compare_mutex.
 
 (* ---- the final image does not depend on the order in which blocks were written: blocks write disjoint windows (C06),
